@@ -43,7 +43,7 @@ def _inlines(inl, st):
         elif k == "br":
             out.append("\\line ")
         elif k == "link":
-            out.append('{\\field{\\*\\fldinst{HYPERLINK "' + i.get("url", "https://example.org/") + '"}}{\\fldrslt{\\ul\\cf1 ' + _inlines(i["inl"], st) + "}}}")
+            out.append('{\\field{\\*\\fldinst{HYPERLINK "' + i.get("url", "https://example.org/") + '"}}{\\fldrslt{' + ("\\ul" if st["opts"].get("u_words") else "") + '\\cf1 ' + _inlines(i["inl"], st) + "}}}")
         elif k == "ins":
             out.append("{\\revised\\revauth1\\revdttm1170309120 " + _inlines(i["inl"], st) + "}")
         elif k == "del":
@@ -112,7 +112,7 @@ def render_rtf(doc, *, images=None, opts=None) -> bytes:
     p = doc.get("props") or {}
     info = "".join("{\\%s %s}" % (key, esc(p[src])) for key, src in (("title", "title"), ("subject", "subject"), ("author", "author"), ("keywords", "keywords"), ("doccomm", "description")) if p.get(src) is not None)
     info = "{\\info" + info + "{\\creatim\\yr2024\\mo3\\dy1\\hr12\\min0}}"
-    head = ("{\\rtf1\\ansi\\ansicpg1252\\deff0\\uc1\n{\\fonttbl{\\f0\\froman\\fcharset0 Times New Roman;}{\\f1\\fswiss\\fcharset0 Arial;}}\n"
+    head = ("{\\rtf1\\ansi\\ansicpg1252\\deff0" + ("\\uc1" if opts.get("u_words") else "") + "\n{\\fonttbl{\\f0\\froman\\fcharset0 Times New Roman;}{\\f1\\fswiss\\fcharset0 Arial;}}\n"
             "{\\colortbl;\\red255\\green0\\blue0;\\red0\\green0\\blue255;}\n{\\stylesheet{\\s0 Normal;}{\\s1\\outlinelevel0 heading 1;}{\\s2\\outlinelevel1 heading 2;}{\\s3\\outlinelevel2 heading 3;}}\n"
             "{\\*\\listtable{\\list\\listtemplateid1{\\listlevel\\levelnfc0{\\leveltext\\'02\\'00.;}{\\levelnumbers\\'01;}}\\listid1}}{\\*\\listoverridetable{\\listoverride\\listid1\\ls1}}\n"
             + info + "\n")
